@@ -1,3 +1,347 @@
-import Hive.Model.Timed
+import Hive.Proofs.TimedPend
+import Hive.Gen.C18_Skel
+/-!
+# C18 — timed Queue / Executor / TaskExecutor: never early, at most once, cancel honoured
+
+Property theorems only.  Model: `Hive/Model/Timed.lean` — the protocol model of runtime/timed
+(queue.go, executor.go, taskexecutor.go over `container/heap`) **after** the `fix:` commits of
+`known_findings/C18.json`.  Every theorem quantifies over all configurations reachable from an
+initial one: any size bound, any number of worker goroutines (at least one), any number of
+controller goroutines each running an arbitrary script of `ExecuteAt` (tracked or not) /
+`Cancel(id)` / element `Cancel()` / `Shutdown(flags)` calls with arbitrary times, callbacks that
+block, re-schedule or cancel their own identifier, a clock that may advance at any step, and every
+interleaving of all of these (each critical section is one step; `ExecuteAt` is two, `Shutdown`
+three).  A sequential history is the special case of one controller.
+
+The log of a configuration records the observable events newest first; `okLog` (Spec/Timed.lean)
+is the trace predicate that the driver also evaluates on traces of the real code.
+-/
 namespace Hive.Timed
+open Hive.Conc
+
+/-- Reachable from some initial configuration. -/
+def Reachable (c : Cfg Sh Th) : Prop :=
+  ∃ maxSize ts, InitPool ts ∧ Reach sys (initCfg maxSize ts) c
+
+theorem Reachable.all {c : Cfg Sh Th} (h : Reachable c) : AllInv c := by
+  obtain ⟨m, ts, hts, hr⟩ := h
+  exact all_reach hts hr
+
+theorem okLog_split {newer older : List Ev} {ev : Ev} (h : okLog (newer ++ ev :: older) = true) :
+    okEv ev older = true ∧ okLog older = true := by
+  induction newer with
+  | nil => simpa [okLog] using h
+  | cons a l ih =>
+    simp only [List.cons_append, okLog, Bool.and_eq_true] at h
+    exact ih h.2
+
+theorem dueOf_mem {x d : Nat} {log : List Ev} (h : dueOf x log = some d) : ∃ i, Ev.sched x i d ∈ log := by
+  induction log with
+  | nil => simp [dueOf] at h
+  | cons ev l ih =>
+    cases ev with
+    | sched y i d' =>
+      simp only [dueOf] at h
+      split at h
+      · rename_i hy
+        have hy' : y = x := by simpa using hy
+        cases h; subst hy'
+        exact ⟨i, by simp⟩
+      · obtain ⟨j, hj⟩ := ih h; exact ⟨j, by simp [hj]⟩
+    | _ =>
+      simp only [dueOf] at h
+      obtain ⟨j, hj⟩ := ih h
+      exact ⟨j, by simp [hj]⟩
+
+/-- **The trace predicate holds in every reachable configuration.** -/
+theorem C18_trace_ok {c : Cfg Sh Th} (hr : Reachable c) : okLog c.1.log = true := hr.all.i1.ok
+
+/-- **Never early.** Whenever `Poll` hands an element out (event `deliver x t`), the element was
+scheduled (`sched x _ d` earlier in the log) and `t` is not before its time `d` — unless a
+`Shutdown` with `IgnorePendingTimeouts` happened before. -/
+theorem C18_never_early {c : Cfg Sh Th} (hr : Reachable c) {newer older : List Ev} {x t : Nat}
+    (hl : c.1.log = newer ++ .deliver x t :: older) :
+    ∃ d, (∃ i, Ev.sched x i d ∈ older) ∧ (d ≤ t ∨ older.any Ev.isIgnoreShutdown = true) := by
+  have h := C18_trace_ok hr
+  rw [hl] at h
+  have h1 := (okLog_split h).1
+  simp only [okEv, Bool.and_eq_true, timely] at h1
+  cases hd : dueOf x older with
+  | none => rw [hd] at h1; simp at h1
+  | some d =>
+    rw [hd] at h1
+    refine ⟨d, dueOf_mem hd, ?_⟩
+    simpa using h1.2
+
+/-- The same for the start of a callback (`run x t`): tasks of an Executor / TaskExecutor never start
+before their time unless `IgnorePendingTimeouts` was given. -/
+theorem C18_never_early_run {c : Cfg Sh Th} (hr : Reachable c) {newer older : List Ev} {x t : Nat}
+    (hl : c.1.log = newer ++ .run x t :: older) :
+    ∃ d, (∃ i, Ev.sched x i d ∈ older) ∧ (d ≤ t ∨ older.any Ev.isIgnoreShutdown = true) := by
+  have h := C18_trace_ok hr
+  rw [hl] at h
+  have h1 := (okLog_split h).1
+  simp only [okEv, Bool.and_eq_true, timely] at h1
+  cases hd : dueOf x older with
+  | none => rw [hd] at h1; simp at h1
+  | some d =>
+    rw [hd] at h1
+    refine ⟨d, dueOf_mem hd, ?_⟩
+    simpa using h1.2
+
+/-- **At most once.** Every element is in at most one place: in the heap, in the hands of one
+poller, or delivered — and it is delivered at most once and its callback runs at most once. -/
+theorem C18_at_most_once {c : Cfg Sh Th} (hr : Reachable c) (x : Nat) :
+    hc x c.1.heap + tsum (pre x) c.2 + c.1.log.countP (Ev.isDeliver x) ≤ 1 ∧
+    c.1.log.countP (Ev.isDeliver x) ≤ 1 ∧ c.1.log.countP (Ev.isRun x) ≤ 1 := by
+  have h1 := hr.all.i1.a1 x
+  have h2 := hr.all.i1.b1 x
+  simp only [dc, rc] at h1 h2
+  exact ⟨h1, by omega, by omega⟩
+
+/-- **Cancel honoured (Queue).** An element whose `Cancel()` completed is never handed out
+afterwards — whether it was still in the heap or already popped by a poller. -/
+theorem C18_cancel_before_pop_never_delivered {c : Cfg Sh Th} (hr : Reachable c) {newer older : List Ev}
+    {x t : Nat} (hl : c.1.log = newer ++ .deliver x t :: older) : Ev.cancelled x ∉ older := by
+  have h := C18_trace_ok hr
+  rw [hl] at h
+  have h1 := (okLog_split h).1
+  simp only [okEv, Bool.and_eq_true, Bool.not_eq_eq_eq_not, Bool.not_true] at h1
+  have h2 := h1.1.2
+  intro hm
+  rw [List.any_eq_false] at h2
+  exact h2 _ hm (by simp [Ev.isCancelled])
+
+theorem okLog_run_revoke {log : List Ev} (h : okLog log = true) (x : Nat) :
+    ¬ (log.any (Ev.isRun x) = true ∧ log.any (Ev.isRevoke x) = true) := by
+  induction log with
+  | nil => simp
+  | cons ev l ih =>
+    simp only [okLog, Bool.and_eq_true] at h
+    have ih' := ih h.2
+    rintro ⟨h1, h2⟩
+    simp only [List.any_cons, Bool.or_eq_true] at h1 h2
+    have hev := h.1
+    cases ev with
+    | run y t =>
+      simp only [okEv, Bool.and_eq_true, Bool.not_eq_eq_eq_not, Bool.not_true] at hev
+      simp only [Ev.isRevoke, Bool.false_eq_true, false_or] at h2
+      rcases h1 with h1 | h1
+      · have hy : y = x := by simpa [Ev.isRun] using h1
+        subst hy
+        rw [hev.1.2] at h2; cases h2
+      · exact ih' ⟨h1, h2⟩
+    | cancelRes i b o =>
+      simp only [Ev.isRun, Bool.false_eq_true, false_or] at h1
+      rcases h2 with h2 | h2
+      · cases b <;> cases o <;> simp only [Ev.isRevoke, Bool.false_eq_true] at h2
+        rename_i y
+        have hy : y = x := by simpa using h2
+        subst hy
+        simp only [okEv, Bool.not_eq_eq_eq_not, Bool.not_true] at hev
+        rw [hev] at h1; cases h1
+      · exact ih' ⟨h1, h2⟩
+    | replaced i y =>
+      simp only [Ev.isRun, Bool.false_eq_true, false_or] at h1
+      rcases h2 with h2 | h2
+      · have hy : y = x := by simpa [Ev.isRevoke] using h2
+        subst hy
+        simp only [okEv, Bool.not_eq_eq_eq_not, Bool.not_true] at hev
+        rw [hev] at h1; cases h1
+      · exact ih' ⟨h1, h2⟩
+    | _ =>
+      simp only [Ev.isRun, Ev.isRevoke, Bool.false_eq_true, false_or] at h1 h2
+      exact ih' ⟨h1, h2⟩
+
+/-- **Cancel(id) = true ⇒ prevented; re-scheduling replaces.** A task for which `Cancel(id)`
+returned true, or which a later `ExecuteAt(id)` replaced, never runs — neither before nor after. -/
+theorem C18_cancel_true_never_runs {c : Cfg Sh Th} (hr : Reachable c) (x : Nat) :
+    ¬ (c.1.log.any (Ev.isRun x) = true ∧ c.1.log.any (Ev.isRevoke x) = true) :=
+  okLog_run_revoke (C18_trace_ok hr) x
+
+/-- `TaskExecutor.Cancel(id)` returns true exactly when `id` has a registration. -/
+theorem C18_cancel_result (s : Sh) (i : Nat) : (cancelId s i).lastRes = .bool (regGet s.reg i).isSome := by
+  unfold cancelId; cases regGet s.reg i <;> rfl
+
+/-- **One pending task per identifier.** Among the heap, the pollers and the delivered-but-not-
+started tasks there is at most one task of identifier `i` with an open cancel channel. -/
+theorem C18_one_pending_per_id {c : Cfg Sh Th} (hr : Reachable c) (i : Nat) :
+    pendHeap c.1 i + tsum (pendTh c.1 i) c.2 ≤ 1 :=
+  (one_pending hr.all.i1 hr.all.i2 i).1
+
+/-- **Cancel(id) = false ⇒ nothing was pending.** When `id` has no registration (`Cancel(id)` returns
+false, `C18_cancel_result`), no task of `id` is pending anywhere. -/
+theorem C18_cancel_false_nothing_pending {c : Cfg Sh Th} (hr : Reachable c) (i : Nat)
+    (h : regGet c.1.reg i = none) : pendHeap c.1 i + tsum (pendTh c.1 i) c.2 = 0 :=
+  (one_pending hr.all.i1 hr.all.i2 i).2 h
+
+/-- **Re-scheduling replaces.** After the second half of `ExecuteAt(id)` on a queue that is not shut
+down, `id` is registered to the new element, and (by `C18_one_pending_per_id`,
+`C18_cancel_true_never_runs`) the previous one is neither pending nor will it ever run. -/
+theorem C18_reschedule_replaces (s : Sh) (i due : Nat) (kind : Kind) (tag : Nat) (h : s.isShutdown = false) :
+    regGet (exec2 s i due kind tag).reg i = some s.next ∧ (exec2 s i due kind tag).lastRes = .ok s.next := by
+  unfold exec2
+  rcases add_cases s due (some i) kind tag with ⟨hs, _, _⟩ | ⟨_, hok, h2, new, h1, _⟩
+  · rw [h] at hs; cases hs
+  · cases hadd : add s due (some i) kind tag with
+    | mk s1 r1 =>
+      rw [hadd] at hok; simp only at hok; subst hok
+      simp
+
+/-- The full statement of "Cancel(id) returns true only when it prevents a pending task": a
+registered task with an open cancel channel is live (in the heap, with a poller, or delivered and
+about to start).  The code does not satisfy it (`C18_cancel_true_size_bound_witness`,
+`C18_cancel_true_after_shutdown_witness`): the queue drops elements without telling the TaskExecutor. -/
+def C18_statement : Prop :=
+  ∀ c : Cfg Sh Th, Reachable c → ∀ i x, regGet c.1.reg i = some x → x ∉ c.1.closed → 1 ≤ lv x c.1 c.2
+
+/-- **Cancel(id) = true ⇒ a task was pending**, proved under what the code forces: no size bound
+and the queue not shut down.  (Missing for the full statement: elements dropped by the size bound
+or by `CancelPendingElements` keep their registration.) -/
+theorem C18_cancel_true_iff_prevented_partial {c : Cfg Sh Th} (hr : Reachable c) (hm : c.1.maxSize = 0)
+    (hs : c.1.isShutdown = false) {i x : Nat} (hg : regGet c.1.reg i = some x) (hc : x ∉ c.1.closed) :
+    lv x c.1 c.2 = 1 := by
+  have h1 := hr.all.i2.f hm hs i x hg hc
+  have h2 := lv_le_one hr.all.i1 x
+  omega
+
+/-! ### witnesses (replayed on the real code by the corpus of harness/c18) -/
+
+def wSize : Cfg Sh Th :=
+  runSched sys (initCfg 1 [.idle, .ctl .ready [.exec 1 5 .plain 10, .exec 2 9 .plain 11, .exec 3 7 .plain 12]])
+    [(1, 0), (1, 0), (0, 0), (1, 0), (1, 0), (1, 0), (1, 0)]
+
+theorem wSize_reachable : Reachable wSize :=
+  ⟨1, _, ⟨by decide, by decide⟩, runSched_reach _ _ _⟩
+
+/-- Size bound 1: task 1 (identifier 2, due 9) is dropped when task 2 (due 7) arrives, yet identifier
+2 stays registered to it: `Cancel(2)` returns true although nothing is pending. -/
+theorem C18_cancel_true_size_bound_witness :
+    regGet wSize.1.reg 2 = some 1 ∧ 1 ∉ wSize.1.closed ∧ lv 1 wSize.1 wSize.2 = 0 ∧ ¬ C18_statement := by
+  have h : regGet wSize.1.reg 2 = some 1 ∧ 1 ∉ wSize.1.closed ∧ lv 1 wSize.1 wSize.2 = 0 := by decide
+  refine ⟨h.1, h.2.1, h.2.2, ?_⟩
+  intro hst
+  have := hst wSize wSize_reachable 2 1 h.1 h.2.1
+  omega
+
+def wShut : Cfg Sh Th :=
+  runSched sys (initCfg 0 [.idle, .ctl .ready [.exec 1 9 .plain 10, .shutdown { cancel := true, dontWait := true }]])
+    [(1, 0), (1, 0), (0, 0), (1, 0), (1, 0), (1, 0), (0, 0)]
+
+theorem wShut_reachable : Reachable wShut :=
+  ⟨0, _, ⟨by decide, by decide⟩, runSched_reach _ _ _⟩
+
+/-- `Shutdown(CancelPendingElements)` discards the task held by the poller; its identifier stays
+registered: `Cancel(1)` returns true although nothing is pending. -/
+theorem C18_cancel_true_after_shutdown_witness :
+    regGet wShut.1.reg 1 = some 0 ∧ 0 ∉ wShut.1.closed ∧ lv 0 wShut.1 wShut.2 = 0 ∧
+      wShut.1.log.any (fun ev => ev == .dropSD 0) = true := by decide
+
+/-! ### progress -/
+
+/-- **Eventually delivered.** With at least one worker, in every reachable configuration in which
+an element waits in the heap or is in the hands of a poller — in particular every element that is
+neither cancelled nor dropped, also after `Shutdown` without `CancelPendingElements` — some
+goroutine of the executor (a worker, the `Shutdown` call in progress, or the `ExecuteAt` holding
+the map's mutex) can take a step, or waits only for the clock (a worker in its `select` before the
+time of the element it holds) or for the harness (a blocked callback / the `verif` hook).  There
+is no reachable configuration in which such an element is stuck. -/
+theorem C18_eventually_delivered {c : Cfg Sh Th} (hr : Reachable c)
+    (hpend : c.1.heap ≠ [] ∨ ∃ t ∈ c.2, ∃ e, t = .hk e ∨ t = .sel e ∨ t = .selSD e ∨ t = .chk e) :
+    ∃ t ∈ c.2, OnItsWay c.1 t :=
+  progress hr.all hpend
+
+/-- A poller that holds an element whose time has come, with nothing else pending, hands it out or
+skips it because it was cancelled: its step is enabled and leads to `chk` / `idle`. -/
+theorem C18_due_element_moves (s : Sh) (e : Elem) (h : e.due ≤ s.clock) :
+    (s, Th.chk e) ∈ step s (.sel e) ∧ (s, Th.chk e) ∈ step s (.selSD e) ∧ step s (.chk e) ≠ [] := by
+  refine ⟨?_, ?_, ?_⟩
+  · simp [step, workerStep, h]
+  · simp [step, workerStep, h]
+  · simp only [step, workerStep]; split <;> simp
+
+/-- **Shutdown wakes every waiting poller**: once a `Shutdown` has gone through its last step, every
+goroutine still in `waitCond.Wait()` has been notified (so `Executor.Shutdown` is not left waiting
+for a worker that sleeps forever). -/
+theorem C18_shutdown_wakes_pollers {c : Cfg Sh Th} (hr : Reachable c) (hs : c.1.isShutdown = true)
+    (hsd : tsum sdN c.2 = 0) : ∀ t ∈ c.2, t = .parked → step c.1 t ≠ [] :=
+  shutdown_wakes hr.all hs hsd
+
+/-! ### non-vacuity -/
+
+/-- A reachable configuration with a registered pending task: hypotheses of the partial theorem. -/
+def wPending : Cfg Sh Th :=
+  runSched sys (initCfg 0 [.idle, .ctl .ready [.exec 1 9 .plain 10]]) [(1, 0), (1, 0), (0, 0)]
+
+example : Reachable wPending ∧ wPending.1.maxSize = 0 ∧ wPending.1.isShutdown = false ∧
+    regGet wPending.1.reg 1 = some 0 ∧ 0 ∉ wPending.1.closed ∧ lv 0 wPending.1 wPending.2 = 1 :=
+  ⟨⟨0, _, ⟨by decide, by decide⟩, runSched_reach _ _ _⟩, by decide⟩
+
+/-- A reachable configuration whose log contains a delivery and a run (hypotheses of the trace theorems). -/
+def wRun : Cfg Sh Th :=
+  runSched sys (initCfg 0 [.idle, .ticker, .ctl .ready [.exec 1 1 .plain 10]])
+    [(2, 0), (2, 0), (0, 0), (1, 0), (0, 0), (0, 0), (0, 0)]
+
+example : Reachable wRun ∧ wRun.1.log = [.run 0 1, .deliver 0 1, .sched 0 (some 1) 1] :=
+  ⟨⟨0, _, ⟨by decide, by decide⟩, runSched_reach _ _ _⟩, by decide⟩
+
+/-- Hypothesis of `C18_eventually_delivered`: an element waits in the heap while the only worker holds another one. -/
+example : wSize.1.heap ≠ [] ∧ wSize.2.any (fun t => match t with | .sel _ => true | _ => false) = true := by decide
+
+/-! ### Regenerated tie: the synchronisation skeletons the model was written against
+
+`Hive/Gen/C18_Skel.lean` is regenerated from runtime/timed on every run.  The model's atomic
+steps are exactly the critical sections below: `Add` checks the shutdown flag *inside* the heap
+lock and signals after unlocking; `Shutdown` marks under `shutdownMutex`, then (after the context
+cancel) handles the heap and broadcasts *unconditionally* under the heap lock; `Poll` waits on the
+condition in a loop, pops under the lock, selects outside of it and re-checks `isCanceled` before
+every return of a value; `Cancel` removes and closes under the heap lock; the TaskExecutor holds its
+mutex across cancel-and-deregister-old / add-new / register-new, its wrapper tests and drops the registration
+under the mutex and calls the callback outside of it. -/
+open Hive.Gen.C18Skel in
+theorem C18_skeleton_add : skel_Queue_Add =
+    ["lock t.heapMutex", "if{", "unlock t.heapMutex", "if{", "}if", "return", "}if", "call heap.Push", "if{", "if{",
+      "call heap.Remove", "}if", "}if", "unlock t.heapMutex", "call t.waitCond.Signal", "return"] := by decide
+
+open Hive.Gen.C18Skel in
+theorem C18_skeleton_shutdown : skel_Queue_Shutdown =
+    ["lock t.shutdownMutex", "if{", "defer unlock t.shutdownMutex", "if{", "}if", "return", "}if", "for{", "}for",
+      "unlock t.shutdownMutex", "lock t.heapMutex", "if{", "for{", "call heap.Pop", "}for", "}if",
+      "call t.waitCond.Broadcast", "unlock t.heapMutex"] := by decide
+
+open Hive.Gen.C18Skel in
+theorem C18_skeleton_poll : skel_Queue_Poll =
+    ["for{", "lock t.heapMutex", "for{", "if{", "unlock t.heapMutex", "return", "}if", "call t.waitCond.Wait", "}for",
+      "call heap.Pop", "unlock t.heapMutex", "select{", "case recv t.ctx.Done()", "if{", "return", "}if", "if{",
+      "helper isCanceled", "if{", "continue", "}if", "return", "}if", "select{",
+      "case recv polledElement.Value.cancel", "continue", "case recv timer.C", "helper isCanceled", "if{", "continue",
+      "}if", "return", "}select", "case recv polledElement.Value.cancel", "continue", "case recv timer.C",
+      "helper isCanceled", "if{", "continue", "}if", "return", "}select", "}for"] := by decide
+
+open Hive.Gen.C18Skel in
+theorem C18_skeleton_cancel : skel_QueueElement_Cancel =
+    ["lock timedQueueElement.timedQueue.heapMutex", "defer unlock timedQueueElement.timedQueue.heapMutex",
+      "helper removeElement", "select{", "case recv timedQueueElement.cancel", "default",
+      "close timedQueueElement.cancel", "}select"] ∧
+    skel_Queue_removeElement = ["if{", "return", "}if", "call heap.Remove"] ∧
+    skel_QueueElement_isCanceled =
+      ["select{", "case recv timedQueueElement.cancel", "return", "default", "return", "}select"] := by decide
+
+open Hive.Gen.C18Skel in
+theorem C18_skeleton_executor : skel_Executor_Shutdown =
+    ["for{", "}for", "helper Shutdown", "if{", "return", "}if", "call t.shutdownWG.Wait"] ∧
+    skel_Executor_startBackgroundWorkers =
+      ["for{", "call t.shutdownWG.Add", "go", "func{", "call t.queue.Poll", "for{", "call t.queue.Poll", "}for",
+        "call t.shutdownWG.Done", "}func", "}for"] := by decide
+
+open Hive.Gen.C18Skel in
+theorem C18_skeleton_taskexecutor : skel_TaskExecutor_ExecuteAt =
+    ["lock t.queuedElementsMutex", "defer unlock t.queuedElementsMutex", "call t.queuedElements.Get", "if{",
+      "call queuedElement.Cancel", "call t.queuedElements.Delete", "}if", "func{", "lock t.queuedElementsMutex",
+      "call t.queuedElements.Get", "if{", "call t.queuedElements.Delete", "}if", "unlock t.queuedElementsMutex", "if{",
+      "}if", "}func", "call t.Executor.ExecuteAt", "if{", "call t.queuedElements.Set", "}if", "return"] ∧
+    skel_TaskExecutor_Cancel =
+      ["lock t.queuedElementsMutex", "defer unlock t.queuedElementsMutex", "call t.queuedElements.Get", "if{",
+        "return", "}if", "call queuedElement.Cancel", "call t.queuedElements.Delete", "return"] := by decide
+
 end Hive.Timed
